@@ -67,6 +67,12 @@ pub enum Ctl {
     Pause(bool),
     /// close the master side (the slave sees a hang-up); the peer thread ends
     Close,
+    /// answer (or stop answering) the device attributes request
+    AnswerDa(bool),
+    /// type a key every `every_ms` milliseconds, `count` times
+    Flood { every_ms: u64, count: usize },
+    /// answer the size queries CSI 18 t / CSI 14 t with these cells (rows, cols) and pixels (height, width)
+    AnswerSize(Option<(u16, u16, u16, u16)>),
 }
 
 pub struct Peer {
@@ -114,6 +120,9 @@ impl Peer {
             let mut rates = if rates.is_empty() { vec![Rate { size: 65536, sleep_us: 0 }] } else { rates };
             let mut k = 0usize;
             let mut paused = false;
+            let mut answer_da = answer_da;
+            let mut flood: Option<(u64, usize, Instant)> = None;
+            let mut answer_size: Option<(u16, u16, u16, u16)> = None;
             let mut tail: Vec<u8> = vec![]; // last bytes, to find a request split across reads
             let mut quiet_since: Option<Instant> = None;
             let mut buf = vec![0u8; 1 << 16];
@@ -132,6 +141,15 @@ impl Peer {
                             pa2.store(p, Ordering::SeqCst);
                         }
                         Ctl::Close => return, // `master` is dropped here
+                        Ctl::AnswerDa(a) => answer_da = a,
+                        Ctl::AnswerSize(a) => answer_size = a,
+                        Ctl::Flood { every_ms, count } => flood = Some((every_ms, count, Instant::now())),
+                    }
+                }
+                if let Some((every, left, at)) = flood {
+                    if left > 0 && Instant::now() >= at {
+                        write_all_fd(fd, b"x");
+                        flood = Some((every, left - 1, Instant::now() + Duration::from_millis(every)));
                     }
                 }
                 if paused {
@@ -150,6 +168,16 @@ impl Peer {
                         let data = &buf[..got as usize];
                         r2.lock().unwrap().extend_from_slice(data);
                         c2.fetch_add(got as usize, Ordering::SeqCst);
+                        if let Some((rows, cols, ph, pw)) = answer_size {
+                            // (queries split across two reads are not looked for: the library writes them together)
+                            let has = |n: &[u8]| data.windows(n.len()).filter(|w| *w == n).count();
+                            for _ in 0..has(b"\x1b[18t") {
+                                write_all_fd(fd, format!("\x1b[8;{};{}t", rows, cols).as_bytes());
+                            }
+                            for _ in 0..has(b"\x1b[14t") {
+                                write_all_fd(fd, format!("\x1b[4;{};{}t", ph, pw).as_bytes());
+                            }
+                        }
                         if answer_da {
                             let mut scan = tail.clone();
                             scan.extend_from_slice(data);
